@@ -754,6 +754,7 @@ class C18(RunSpec):
         p["inner"] = _cycle(POP_ENGINES + CMA_ENGINES, idx, 2)
         p["levels"] = [2, 3, 3]
         p["hibernation"] = (idx % 5) != 4
+        p["tiny_leaf_p"] = 0.3  # (1+1)-style leaves: the whole child evolution goes through one individual's problem wrapper
         p["sprout"] = _cycle(["simple", "nbc", "custom", "simple"], idx)
         p["gscs"] = ["melimit", "melimit", "evals", "fevals"]
         p["level_limit"] = rng.randint(1, 3)
@@ -764,10 +765,85 @@ class C18(RunSpec):
         d = super().make_case(seed, idx, tier)
         if d["gsc"]["k"] == "melimit":
             d["gsc"]["n"] = max(d["gsc"]["n"], 8)
+        if idx % 10 == 6 and len(d["levels"]) == 3 and not d.get("reuse") and not d.get("soak"):
+            # pilot-then-target: an evaluation limit that is crossed *inside* a sprouting round in which two parents sprout
+            rng = gen.case_rng(self.prop, seed, idx, "target")
+            d["options"]["hibernation"] = True
+            d["options"]["random_seed"] = rng.randint(0, 10**6)
+            d["gsc"] = {"k": "evals", "n": 10**9}
+            d["levels"][0]["lsc"] = {"k": "dontstop"}
+            d["levels"][1]["lsc"] = {"k": "dontstop"}
+            d["target_round"] = True
+        return d
+
+    def run_case(self, desc):
+        if desc.get("target_round"):
+            desc = self._retarget_round(desc)
+        res = super().run_case(desc)
+        if desc.get("target_round") == "placed":
+            res["cov"]["C18.limit_placed_inside_a_round_with_two_parents"] += 1
+        return res
+
+    @staticmethod
+    def _retarget_round(desc):
+        import copy
+        import warnings
+
+        from . import harness
+
+        class Pilot:
+            ctx = None
+
+            def __init__(self):
+                self.rounds = []
+                self.cur = None
+
+            def on_sprout_seeds(self, tree, seeds):
+                owner = {id(ind): p.id for p, c in seeds.items() for ind in c.individuals}
+                self.cur = {"E0": sum(d.n_evaluations for lvl in tree.levels for d in lvl), "owner": owner, "children": []}
+
+            def on_init(self, deme, start, end):
+                if self.cur is not None and deme.level > 0:
+                    self.cur["children"].append((self.cur["owner"].get(id(deme._sprout_seed)), end - start))
+
+            def on_sprout_end(self, tree, seeds):
+                if self.cur is not None:
+                    self.rounds.append(self.cur)
+                self.cur = None
+
+        pilot = copy.deepcopy(desc)
+        pilot["gsc"] = {"k": "melimit", "n": 12}
+        pm = Pilot()
+        pctx = harness.Ctx(pilot, [pm], gsc_cap=3000)
+        harness.scramble_rng(pilot.get("np_seed", 0))
+        with warnings.catch_warnings():
+            warnings.simplefilter("ignore")
+            with harness.activate(pctx):
+                try:
+                    from pyhms.tree import DemeTree
+
+                    DemeTree(harness.build_config(pilot, pctx)).run()
+                except harness.HarnessError:
+                    raise
+                except Exception:
+                    pass
+        d = copy.deepcopy(desc)
+        for r in pm.rounds:
+            parents = [p for p, _ in r["children"]]
+            if len(set(parents)) >= 2:
+                first = parents[0]
+                n_first = sum(n for p, n in r["children"] if p == first)
+                if n_first >= 1:
+                    d["gsc"] = {"k": "evals", "n": int(r["E0"] + n_first)}
+                    d["target_round"] = "placed"
+                    return d
+        d["gsc"] = {"k": "melimit", "n": 8}
+        d["target_round"] = "no-suitable-round"
         return d
 
     def floors(self, tier):
         return [
+            ("C18.limit_placed_inside_a_round_with_two_parents", 1, "evaluation limit crossed inside a sprouting round in which two parents sprout"),
             ("C18.flag_rule_checked.sleep.root", 1, "root put to sleep"),
             ("C18.flag_rule_checked.sleep.intermediate", 1, "intermediate deme put to sleep"),
             ("C18.wake.root", 1, "root woken"),
@@ -977,6 +1053,9 @@ class C19(DirectSpec):
             ("snapshot_at_K", 1, "snapshot at k=K"),
             ("continued_run_sprouted_again", 1, "continued run that sprouted again after loading"),
             ("continued_runs", 10, "continued runs"),
+            ("fresh_process_continued_runs", 5, "snapshots loaded and continued in a fresh interpreter"),
+            ("fresh_process_continued_run_sprouted_again", 1, "fresh-interpreter continuation that sprouted again"),
+            ("engine.custom", 1, "custom deme class in a snapshot"),
         ]
 
 
